@@ -198,6 +198,22 @@ def _t(s):
     return int(round(v))
 
 
+class _EqEl:
+    """An element that is equal to every other one of its kind; [1] is its number (like the ("elem", k) tuples)."""
+
+    def __init__(self, k):
+        self.k = k
+
+    def __eq__(self, other):
+        return isinstance(other, _EqEl)
+
+    def __hash__(self):
+        return 7
+
+    def __getitem__(self, i):
+        return ("elem", self.k)[i]
+
+
 def dq_program(params):
     """params: {"threads": {"name": [op, ...]}, "gets": n, "clock": k}
     op: ["put", el, delayed] | ["remove", el] | ["close"] | ["sleep", d]
@@ -218,7 +234,9 @@ def dq_program(params):
 
         def el(k):
             if k not in elems:
-                elems[k] = ("elem", k)
+                # params["equal"]: all elements compare (and hash) equal although they are distinct objects - the queue
+                # has to tell them apart by identity, as it does for the inotify events it carries
+                elems[k] = _EqEl(k) if params.get("equal") else ("elem", k)
             return elems[k]
 
         def worker(ops):
